@@ -89,6 +89,13 @@ def run(ctx):
     ctx.rule("R6", "children read parent memory through the checked Memory::load / load_range; the join's alloc succeeds exactly while the combined length is within the limit (C08 R6)")
     A_.parent_memory_rules(ctx, "R6")
     A_.alloc_rules(ctx, "R6")
+    A_.compute_inputs_wiring(ctx, "R3")
+    # a child that stops does so through the validated conditions: an invalid HaltIf / JumpIf condition is a child error (C09 R1/R2)
+    if not getattr(ctx, "_src", None):
+        from . import C09
+        from .C19 import _OnlyKeys
+        C09.run(_OnlyKeys(ctx, "R1", "R6", r"halt_if|bool_from_word"))
+        C09.run(_OnlyKeys(ctx, "R2", "R6", r"halt_if"))
     # R5
     pops = [(bb, t) for bb, t in f.calls() if M.callee_of(t).startswith("essential_vm::stack::Stack::") and M.render(M.peel(pv.of_operand(t["args"][0]))) == "inputs.stack"]
     ctx.ob("R5", "parent-stack-popped-once", [M.callee_of(t).split("::")[-1] for _, t in pops] == ["pop"], f.loc(0), "calls on the parent's stack: %s" % [M.callee_of(t).split("::")[-1] for _, t in pops], f)
